@@ -364,8 +364,9 @@ impl ActorCell {
                 #[cfg(ractor_verif)]
                 crate::verif::point("cleanup.pid", self.get_id().pid(), 0);
             }
-            // If it's enrolled in the registry, remove it
-            if let Some(name) = self.get_name() {
+            // If it's enrolled in the registry, remove it. Remote-actor proxies keep the remote
+            // actor's name but are never enrolled, so they must not remove a local actor's entry.
+            if let Some(name) = self.get_name().filter(|_| self.get_id().is_local()) {
                 crate::registry::unregister(name);
                 #[cfg(ractor_verif)]
                 crate::verif::point("cleanup.name", self.get_id().pid(), 0);
